@@ -725,3 +725,8 @@ Print Assumptions C01K_slice_correct.
 Theorem C01K_reduce_kernel_ok : forall rk sb mask, gkern_ok ssem (gk_reduce rk sb mask).
 Proof. exact gk_reduce_ok. Qed.
 Print Assumptions C01K_reduce_kernel_ok.
+(* lax.iota / jnp.arange: Range (+ Unsqueeze-as-Reshape + Expand) + Cast; exact while the largest index fits the type *)
+Theorem C01K_iota_kernels_ok : forall sb shape dim n,
+  gkern_ok ssem (gk_iota sb shape dim) /\ gkern_ok ssem (gk_iota1 sb n) /\ gkern_ok ssem (gk_arange n).
+Proof. intros. split; [apply gk_iota_ok | split; [apply gk_iota1_ok | apply gk_arange_ok]]. Qed.
+Print Assumptions C01K_iota_kernels_ok.
